@@ -1,10 +1,12 @@
 (* Spec/GitSig.v — S for C03: what git 2.39 verifies.
-   Commits (verify-commit, SHA-1 repository): commit.c
-   parse_buffer_signed_by_header with header "gpgsig" — one pass over the
+   Commits (verify-commit): commit.c parse_buffer_signed_by_header with the
+   header of the repository's object format ("gpgsig" in a SHA-1 repository,
+   "gpgsig-sha256" in a SHA-256 repository) — one pass over the
    lines; the signature header and its continuation lines go to the signature
    buffer, other "gpgsig"-prefixed headers and their continuation lines are
    dropped, everything else goes to the payload, the body is copied verbatim.
-   Tags (verify-tag): gpg-interface.c parse_signature = parse_signed_buffer
+   Tags (verify-tag, the same in SHA-1 and SHA-256 repositories):
+   gpg-interface.c parse_signature = parse_signed_buffer
    (last line that starts a signature block, searched in the WHOLE object),
    payload = remove_signature(buf[:match]) with commit.c's two-slot
    remove_signature, signature = buf[match:].
@@ -36,6 +38,15 @@ Fixpoint pbsh (hdr : bytes) (in_sig other : bool) (ls : list bytes) : bytes * by
 
 Definition git_commit_payload (raw : bytes) : bytes * bytes * bool :=
   pbsh k_gpgsig false false (split_lines raw).
+
+(* the repository's object format selects THE signature header
+   (commit.c gpg_sig_headers[hash_algo_by_ptr(algop)]): "gpgsig" in a SHA-1
+   repository, "gpgsig-sha256" in a SHA-256 repository; the other one is then
+   just another gpgsig-prefixed header, dropped from the payload *)
+Inductive repo_fmt := SHA1 | SHA256.
+Definition sig_header_of (f : repo_fmt) : bytes := match f with SHA1 => k_gpgsig | SHA256 => k_gpgsig256 end.
+Definition git_commit_payload_fmt (f : repo_fmt) (raw : bytes) : bytes * bytes * bool :=
+  pbsh (sig_header_of f) false false (split_lines raw).
 
 (* ---- parse_signed_buffer: byte offset of the last signature-block line, or size ---- *)
 Definition git_parse_signed_buffer (raw : bytes) : nat :=
@@ -105,6 +116,9 @@ Definition git_tag_payload (raw : bytes) : option (option (bytes * bytes)) :=
 (* ---- observables for the C-git comparison ---- *)
 Definition c03_spec_commit (raw : string) : out :=
   let '(p, s, f) := git_commit_payload (unhex raw) in
+  if f then OOk [OBytes p; OBytes s] else OSym "nosig".
+Definition c03_spec_commit256 (raw : string) : out :=
+  let '(p, s, f) := git_commit_payload_fmt SHA256 (unhex raw) in
   if f then OOk [OBytes p; OBytes s] else OSym "nosig".
 Definition c03_spec_tag (raw : string) : out :=
   match git_tag_payload (unhex raw) with
